@@ -150,10 +150,54 @@ def check(ctx, name, operands, impl_fn, torch_fn, exact, reqs, meta):
         reqs.append(f'C06.dense {ptgen.enc_pt(got)}'); meta.append((case, name, gd))
 
 
+def project_checks(ctx, t, types):
+    """t.project(paxes, vaxes)[idx] must be the element of t.to_dense() at the virtual index that (paxes, vaxes) assigns to idx"""
+    import itertools
+    from .unifygen import ev
+    from fggs.indices import ProductAxis, SumAxis
+    dense = t.to_dense()
+    targets = []
+    u = random_pt(ctx.rng, types)
+    targets.append(('fresh', tuple(u.paxes), tuple(u.vaxes)))
+    same = [(a, b) for a in t.paxes for b in t.paxes if a is not b and a._numel == b._numel]
+    if same:
+        a, b = ctx.rng.choice(same)
+        def ren(e):
+            if isinstance(e, PhysicalAxis):
+                return b if e is a else a if e is b else e
+            if isinstance(e, ProductAxis):
+                return ProductAxis(tuple(ren(f) for f in e.factors))
+            return SumAxis(e.before, ren(e.term), e.after)
+        targets.append(('own-axes-swapped', tuple(t.paxes), tuple(ren(e) for e in t.vaxes)))
+    for kind, paxes, vaxes in targets:
+        if math.prod([k._numel for k in paxes] + [1]) > 2000:
+            continue
+        case = dict(op='project', kind=kind, operand=ptgen.enc_pt(t))
+        ctx.case(case, ('project', kind, case['operand']) if not is_dense(t) else None, sample_every=200)
+        ctx.count('project.' + kind)
+        try:
+            r = t.project(paxes, vaxes)
+        except Exception as e:  # noqa
+            ctx.fail(f'project ({kind}) raised {type(e).__name__}: {str(e)[:80]}', case, repr(e), None, tags=['project', 'raises'])
+            continue
+        ok = list(r.shape) == [k._numel for k in paxes]
+        if ok:
+            for idx in itertools.product(*[range(k._numel) for k in paxes]):
+                rho = {id(k): i for k, i in zip(paxes, idx)}
+                want = dense[tuple(ev(e, rho) for e in vaxes)] if vaxes else dense
+                got = r[idx] if paxes else r
+                if not (bool(got == want) or (bool(got != got) and bool(want != want))):
+                    ok = False; break
+        if not ok:
+            ctx.fail(f'project ({kind}): the result does not hold the elements of the tensor at the requested pattern', case, r.tolist(), None, tags=['project', kind])
+
+
 def run(ctx):
     from .unifygen import run_unify, run_antiunify
     run_unify(ctx, 400 if ctx.quick else 8000)
     run_antiunify(ctx, 400 if ctx.quick else 8000)
+    from .c18 import run_copy_noncontiguous      # copy_ followed by in-place operations: both tensors keep denoting the right values
+    run_copy_noncontiguous(ctx, 40 if ctx.quick else 400)
     # the op table must classify every public attribute
     public = {a for a in dir(PatternedTensor) if not a.startswith('_')}
     unclassified = public - EXCLUDED - TESTED
@@ -161,7 +205,7 @@ def run(ctx):
         ctx.fail('PatternedTensor has public operations that the check does not classify', sorted(unclassified), None, None, tags=['unclassified-op'])
     reqs, meta = [], []
     U, B = unary_ops(), binary_ops()
-    n = 60 if ctx.quick else 1500
+    n = 150 if ctx.quick else 1500
     for k in range(n):
         nd = ctx.rng.choice([0, 1, 1, 2, 2, 3])
         types = [random_type(ctx.rng) for _ in range(nd)]
@@ -244,6 +288,8 @@ def run(ctx):
             check(ctx, 'reshape_any', [t], lambda x, a=a, num=num: x.reshape(a, num // a), lambda x, a=a, num=num: x.reshape(a, num // a), True, reqs, meta)
         # project onto own pattern
         check(ctx, 'project', [t], lambda a: PatternedTensor(a.project(a.paxes, a.vaxes), a.paxes, a.vaxes, a.default), lambda a: a, True, reqs, meta)
+        # project onto other patterns of the same shape: a fresh one, and the tensor's OWN physical axes in swapped roles
+        project_checks(ctx, t, types)
         # stack of several tensors with equal defaults
         us = [random_pt(ctx.rng, types, defaults=[t.default]) for _ in range(2)]
         check(ctx, 'stack', [t] + us, lambda *a: stack(list(a), 0), lambda *a: torch.stack(list(a), 0), True, reqs, meta)
